@@ -72,16 +72,17 @@ ITEMS = [
     Type(API, 'struct PolicySet'),
     Raw(file='spec.rs', tag='spec'),
     Fn(API, 'impl Policy > fn is_static', name='Policy::is_static', wrap='impl Policy',
-       ensures=[('static', 'r == (self.ast.spec_id() == self.ast.spec_template().spec_id())')]),
+       ensures=[('static', 'r == self.ast.spec_is_static()')]),
     Fn(API, 'impl PolicySet > fn add', name='PolicySet::add', wrap=W,
-       requires=[('inv', 'winv(*old(self))'), ('static_shape', 'policy.ast.spec_id() == policy.ast.spec_template().spec_id() ==> !policy.ast.spec_template().spec_has_slots()')],
+       requires=[('inv', 'winv(*old(self))')],
+       proof_start='broadcast use ast::axiom_static_id;',
        rewrites=[(r'PolicySetError::ExpectedStatic\(\s*policy_set_errors::ExpectedStatic::new\(\),?\s*\)', 'vx_pse()', 1)],
        ensures=[('inv', 'winv(*final(self))'),
-                ('ok_iff', 'r is Ok <==> policy.ast.spec_id() == policy.ast.spec_template().spec_id() && !old(self).ast.vl().contains_key(policy.ast.spec_id()) && (old(self).ast.vt().contains_key(policy.ast.spec_id()) ==> *old(self).ast.vt()[policy.ast.spec_id()] == policy.ast.spec_template())'),
+                ('ok_iff', 'r is Ok <==> policy.ast.spec_is_static() && !old(self).ast.vl().contains_key(policy.ast.spec_id()) && !old(self).ast.vt().contains_key(policy.ast.spec_id())'),
                 ('effect', 'r is Ok ==> final(self).policies@ == old(self).policies@.insert(PolicyId(policy.ast.spec_id()), policy) && final(self).templates@ == old(self).templates@ && final(self).ast.vl() == old(self).ast.vl().insert(policy.ast.spec_id(), policy.ast)'),
                 ('unchanged_on_error', 'r is Err ==> wsame(*final(self), *old(self))')]),
     Fn(API, 'impl PolicySet > fn add_template', name='PolicySet::add_template', wrap=W,
-       requires=[('inv', 'winv(*old(self))'), ('has_slots', 'template.ast.spec_has_slots()')],
+       requires=[('inv', 'winv(*old(self))')],
        ensures=[('inv', 'winv(*final(self))'),
                 ('ok_iff', 'r is Ok <==> !old(self).ast.vl().contains_key(template.ast.spec_id()) && !old(self).ast.vt().contains_key(template.ast.spec_id())'),
                 ('effect', 'r is Ok ==> final(self).templates@ == old(self).templates@.insert(PolicyId(template.ast.spec_id()), template) && final(self).policies@ == old(self).policies@'),
